@@ -105,7 +105,13 @@ fn main() {
         std::process::exit(2);
     }
     let rc = match args[1].as_str() {
-        "run" => cmd_run(&args[2..]),
+        // VERIF_STACK_KB: run the cases on a thread with that much stack (2048 = the default of std::thread::spawn, what a parser called from a
+        // worker thread gets) instead of the main thread's 8 MiB
+        "run" => match std::env::var("VERIF_STACK_KB").ok().and_then(|x| x.parse::<usize>().ok()) {
+            Some(kb) => { let a: Vec<String> = args[2..].to_vec();
+                          std::thread::Builder::new().stack_size(kb * 1024).spawn(move || cmd_run(&a)).expect("spawn").join().unwrap_or(101) }
+            None => cmd_run(&args[2..]),
+        },
         "fuzz" => fuzz::cmd_fuzz(&args[2..]),
         "dfuzz" => fuzz::cmd_dfuzz(&args[2..]),
         "lensweep-robust" => fuzz::cmd_lensweep_robust(&args[2..]),
